@@ -55,6 +55,8 @@ type c15Cfg struct {
 	// (same name, new key). The first list is signed with the old key, the list published later with the new one: it is
 	// a list a configured trusted signer issued, i.e. an acceptable one
 	Rekeyed bool
+	// Bare: the lists carry no crlExtensions (no cRLNumber, no authority key identifier), like v1 lists
+	Bare bool
 }
 
 func (c c15Cfg) String() string {
@@ -87,6 +89,9 @@ func (c c15Cfg) String() string {
 	if c.Rekeyed {
 		late += " next-list-signed-by-the-second-trusted-signer"
 	}
+	if c.Bare {
+		late += " lists-without-crlExtensions"
+	}
 	return fmt.Sprintf("instances=%d intervals=%v phases=%v download=%s script=%q sig=%s background=%v source=%s%s", c.N, c.Intervals, c.Phases, c.Dur, c.Script, sm, c.Background, c.Source, late)
 }
 
@@ -116,6 +121,9 @@ func c15Run(cfg c15Cfg) (o c15Obs) {
 			sp := world.SimpleCRL(p.CA, n, serials...)
 			if cfg.Stale {
 				sp.ThisUpdate, sp.NextUpdate = vsched.Epoch.Add(-48*time.Hour), vsched.Epoch.Add(-24*time.Hour)
+			}
+			if cfg.Bare {
+				sp.Exts = nil
 			}
 			return sp.DER()
 		}
@@ -290,6 +298,9 @@ func c15Run(cfg c15Cfg) (o c15Obs) {
 						if cfg.Rekeyed {
 							rk = " next-list-signed-by-the-second-trusted-signer"
 						}
+						if cfg.Bare {
+							rk += " lists-without-crlExtensions"
+						}
 						o.Viols = append(o.Viols, c14Viol{fmt.Sprintf("C15|new-revocation-not-enforced|source=%s sig=%d background=%v instances=%d%s", cfg.Source, cfg.Sig, cfg.Background, cfg.N, rk),
 							fmt.Sprintf("instance %d (interval %s): certificate revoked in the CRL obtainable since %s is still accepted at %s (bound %s)", i, cfg.Intervals[i], publishedAt[i].Sub(start), vsched.Now().Sub(start), B(i))})
 					}
@@ -395,6 +406,12 @@ func c15Configs(tier string) []c15Cfg {
 			for _, bg := range []bool{false, true} {
 				out = append(out, c15Cfg{N: 1, Intervals: []time.Duration{I}, Script: "", Sig: config.SignatureValidationModeVerify, Background: bg, Source: src, Moved: code})
 			}
+		}
+	}
+	// lists without crlExtensions
+	for _, src := range []string{"crl_files", "crl_urls", "cdp"} {
+		for _, bg := range []bool{false, true} {
+			out = append(out, c15Cfg{N: 1, Intervals: []time.Duration{I}, Script: "", Sig: config.SignatureValidationModeVerify, Background: bg, Source: src, Bare: true})
 		}
 	}
 	// the CA was re-keyed, both certificates are configured as trusted signers
